@@ -33,11 +33,13 @@ def _mask(cells):
     return m
 
 
-def control_twice(ck, tier, binary=None):
-    """Adds the control-planner half of C20 to the check `ck` (violations, coverage, samples)."""
+def control_twice(ck, tier, binary=None, label="ctrl"):
+    """Adds the control-planner half of C20 to the check `ck` (violations, coverage, samples).
+    label is handed to c20._judge: violation keys are "<label>:<run key>:<clause>" (with label "planner"
+    c20._judge shortens the run key to its first field, "ctrl-<planner>")."""
     binary = binary or build_harness("control", needs_lib=True)
     rng = random.Random(vlib.seed() * 2654435761 + 29)
-    nper = 2 if tier == "quick" else 6     # jobs per planner x system
+    nper = 2 if tier == "quick" else 20    # jobs per planner x system
     jobs = []
     for planner in PLANNERS:
         for system, steps in SYSTEMS.items():
@@ -80,7 +82,7 @@ def control_twice(ck, tier, binary=None):
             obs.append({"e": "Obs", "key": key, "val": o["val"]})
     tp = os.path.join(WORK, "c20-control-%d.ndjson" % os.getpid())
     vlib.write_ndjson(tp, obs)
-    c20._judge(ck, tp, "ctrl")
+    c20._judge(ck, tp, label)
     os.unlink(tp)
     ck.add("traces_validated_against_impl", len(jobs))
     ck.set("control_run_pairs", len(jobs))
